@@ -201,8 +201,41 @@ pub fn gen_c16(rng: &mut Rng, thorough: bool, emit: &mut dyn FnMut(NegotCase)) {
                 mk_elem(rng, c, &w, false)
             })
             .collect();
+        // one case in three: empty list elements (RFC 7230 section 7: a recipient must accept and ignore them)
+        // at random positions -- an element with an empty coding and no weight, with or without blanks
+        let mut l = l;
+        if rng.chance(1, 3) {
+            for _ in 0..rng.range(1, 2) {
+                let at = rng.below(l.len() as u64 + 1) as usize;
+                l.insert(at, mk_elem(rng, "", &None, false));
+            }
+        }
         let h = render_list(&l);
         emit(NegotCase { header: Some(h.clone().into_bytes()), ast: Some(l), more: vec![], class: format!("G:sampled {:?}", h) });
+    }
+    // the same, fixed: an empty element in front of, between and behind elements that decide the outcome
+    for (a, b) in [("*", "gzip;q=0"), ("gzip;q=0.5", "identity"), ("identity;q=0.5", "gzip"), ("gzip", "identity;q=0"), ("identity;q=0", "*;q=0"), ("br", "gzip")] {
+        let parse = |t: &str| -> Elem {
+            match t.split_once(";q=") {
+                None => Elem { pre: "".into(), coding: t.into(), w: None, post: "".into() },
+                Some((c, q)) => {
+                    let w = weights().into_iter().flatten().find(|w| w.render() == q).expect("a weight of the table");
+                    Elem { pre: "".into(), coding: c.into(), w: Some(("".into(), "".into(), w)), post: "".into() }
+                }
+            }
+        };
+        let empty = |ws: &str| Elem { pre: ws.into(), coding: "".into(), w: None, post: "".into() };
+        for shape in 0..5 {
+            let l = match shape {
+                0 => vec![empty(""), parse(a), parse(b)],
+                1 => vec![parse(a), empty(" "), parse(b)],
+                2 => vec![parse(a), parse(b), empty("")],
+                3 => vec![parse(a), empty(""), empty("\t"), parse(b)],
+                _ => vec![empty(" "), parse(b), empty(""), parse(a)],
+            };
+            let h = render_list(&l);
+            emit(NegotCase { header: Some(h.clone().into_bytes()), ast: Some(l), more: vec![], class: format!("G:empty-elements {:?}", h) });
+        }
     }
     // near misses and arbitrary bytes: no-panic clause, compared with the model
     for h in [
